@@ -220,10 +220,81 @@ def regression_cases():
     yield {"g": g, "perms": "all", "syn": False, "kw": False, "inputs": inputs}
 
 
+# ---------------------------------------------------------------------------
+# production templates (ListProds / MapProds / ProdSequence) whose item / delimiter symbols are non-terminals that may
+# be nullable: the recursion, if any, lives in symbols the template generates. No model of the generated productions is
+# used: whatever the constructor accepts must terminate on every input (second sentence of the property).
+
+def eval_template(case):
+    import ak.llparser as L
+    tokcfg, names = gk.tok_config(True, False)
+    item_alts = {"word": [("WORD",)], "word_or_empty": [("WORD",), ()], "empty_or_word": [(), ("WORD",)],
+                 "num_word_or_empty": [("NUM", "WORD"), ()]}[case["item"]]
+    sep = case["sep"]
+    prods = {"ITEM": item_alts}
+    sep_sym = None
+    if sep == "comma":
+        sep_sym = ","
+    elif sep in ("opt_comma", "opt_comma_first_empty"):
+        prods["SEP"] = [(",",), ()] if sep == "opt_comma" else [(), (",",)]
+        sep_sym = "SEP"
+    br = ("[", "]") if case["brackets"] else (None, None)
+    kind = case["kind"]
+    try:
+        if kind == "list":
+            prods["T"] = L.ListProds(br[0], "ITEM", sep_sym, br[1], allow_final_delimiter=case["final"], optional=case["optional"])
+        elif kind == "map":
+            prods["T"] = L.MapProds("{" if case["brackets"] else None, "WORD", ":", "ITEM", sep_sym, "}" if case["brackets"] else None,
+                                    allow_final_delimiter=case["final"], optional=case["optional"])
+        else:
+            prods["T"] = L.ProdSequence("ITEM", *(() if sep_sym is None else (sep_sym,)))
+        prods["E"] = [("T", ";"), ("T", "NUM", ";")] if case["two_alts"] else [("T", ";")]
+        parser = L.LLParser(gk.TOKENIZER, productions=prods, start_symbol_name="E", **tokcfg)
+    except L.GrammarError as e:
+        return Outcome(False, ["template_grammar_rejected_" + type(e).__name__], [], key=case)
+    except (AssertionError, ValueError, TypeError) as e:
+        return Outcome(False, ["template_arguments_refused_" + type(e).__name__], [], key=case)
+    f = []
+    classes = set(["template_grammar_accepted", "template_" + kind])
+    alphabet = ["a", "7", ",", ";", "[", "]"] if kind != "map" else ["a", "7", ",", ";", "{", "}", ":"]
+    evals = 0
+    for n in range(0, case["maxlen"] + 1):
+        for toks in itertools.product(alphabet, repeat=n):
+            text = " ".join(toks)
+            kind_, r, stt = parse_guarded(L, parser, text, len(toks), budget=60000)
+            evals += 1
+            if kind_ == "diverged":
+                f.append(("accepted_template_grammar_parse_diverges", f"{prods!r} text {text!r}: {r}"))
+            elif kind_ == "exception":
+                f.append(("parse_raises_" + type(r).__name__, f"{prods!r} text {text!r}: {r}"))
+            elif kind_ == "inconclusive":
+                classes.add("inconclusive_push_budget")
+            if f:
+                break
+        if f:
+            break
+    return Outcome(True, sorted(classes), f[:2], key=case, evals=evals)
+
+
+def template_cases():
+    for kind in ("list", "map", "seq"):
+        for item in ("word", "word_or_empty", "empty_or_word", "num_word_or_empty"):
+            for sep in (None, "comma", "opt_comma", "opt_comma_first_empty"):
+                for brackets in (True, False):
+                    for final, optional in ((None, None), (True, True), (False, False)):
+                        if kind == "seq" and (brackets or final is not None):
+                            continue
+                        for two_alts in (False, True):
+                            yield {"kind": kind, "item": item, "sep": sep, "brackets": brackets, "final": final,
+                                   "optional": optional, "two_alts": two_alts, "maxlen": 3 if kind == "map" else 4}
+
+
 def parts(tier):
     k = 1 if tier == "quick" else 40
     return [
         Part("regressions", evaluate, enumerate=regression_cases, exhaustive=True),
+        Part("templates_terminate", eval_template, enumerate=template_cases, exhaustive=True,
+             note="template symbols with (nullable) non-terminal items / delimiters; every token string up to length 3-4"),
         Part("skeletons_all_namings", evaluate, strategy=st_case, examples=4000 * k,
              note="every permutation of the names for skeletons with <=4 non-terminals"),
     ]
